@@ -171,7 +171,7 @@ def run(tier, seed):
                 v.violation("%s rows are not in non-decreasing sin(theta)/lambda order (%s)" % (k[0], tag), desc)
             for row, q in zip(res, qs):
                 want = math.sqrt(c * q / 4.0)
-                if abs(row[3] - want) > (1e-9 if not I.get("pseudo") else 1e-6) * want:
+                if not (abs(row[3] - want) <= (1e-9 if not I.get("pseudo") else 1e-6) * want):
                     v.violation("%s fourth column %r is not sintl of hkl %s (%.12g) (%s)" % (k[0], row[3], row[:3], want, tag), desc)
                     break
             if any(not (I["Kmin"] < q <= I["K"]) for q in qs):
